@@ -21,6 +21,8 @@ Definition oMev (e : mev) : sx :=
   | Onset p => L [I 1; I p]
   | Sustain p => L [I 2; I p]
   end.
+Definition xNotes (s : sx) : list fnote :=
+  map (fun r => mkF (xZ (xnth 0 r)) (xZ (xnth 1 r)) (xZ (xnth 2 r)) (xB (xnth 3 r)) (xZ (xnth 4 r))) (xL s).
 Definition oPairs (l : list (Z * Z)) : sx := L (map (fun tf => L [I (fst tf); I (snd tf)]) l).
 
 Definition run (s : sx) : sx :=
@@ -49,11 +51,10 @@ Definition run (s : sx) : sx :=
                    | _ => frame_times_beats (xZs (a 2%nat)) (xZ (a 3%nat))
                    end in
       L [oPairs (chords_written times figs); oPairs (chords_written times (xZs (a 5%nat))); oZs times]
-  | 4 => (* melody writer: events starts ends total -> notes | assertion failure *)
-      let total := xZ (a 4%nat) in
-      let et := event_times (xZs (a 2%nat)) (xZs (a 3%nat)) total in
-      match melody_written (map xMev (xL (a 1%nat))) et total with
-      | Some ns => oOk (L [L (map (fun n => L [I (m_start n); I (m_end n); I (m_pitch n)]) ns); oZs et])
+  | 4 => (* melody writer: events notes((pitch start end drum program)...) total -> notes | assertion failure *)
+      let total := xZ (a 3%nat) in
+      match infer_melody_write (map xMev (xL (a 1%nat))) (xNotes (a 2%nat)) total with
+      | Some ns => oOk (L (map (fun n => L [I (m_start n); I (m_end n); I (m_pitch n)]) ns))
       | None => oErr 1
       end
   | 5 => (* plain-integer instance of the same generic Viterbi: cols init frames -> path *)
@@ -61,8 +62,7 @@ Definition run (s : sx) : sx :=
       oPath (viterbi_z (xZs (a 2%nat)) (z (a 1%nat)) (z (a 3%nat)))
   | 6 => (* sequence_note_frames: notes((pitch start end drum program)...) total -> (pitches event_times has_onsets has_notes) *)
       let total := xZ (a 2%nat) in
-      let ns := frame_notes (map (fun r => mkF (xZ (xnth 0 r)) (xZ (xnth 1 r)) (xZ (xnth 2 r)) (xB (xnth 3 r)) (xZ (xnth 4 r)))
-                                 (xL (a 1%nat))) total in
+      let ns := frame_notes (xNotes (a 1%nat)) total in
       let et := note_event_times ns total in
       let ps := note_pitches ns in
       let frames := seq 0 (Datatypes.S (length et)) in
